@@ -17,7 +17,7 @@ structure Header where
   version : UInt16
   opOrStatus : UInt16
   requestId : UInt32
-  deriving DecidableEq, Repr, BEq, Inhabited
+  deriving DecidableEq, Repr, Inhabited
 
 structure Group where
   tag : DelimiterTag
